@@ -129,7 +129,15 @@ impl VectorState
                 *entry += 1;
             }
 
+            #[cfg(feature = "verif")]
+            let verif_start = state_counts.len();
             state_counts.extend(count_map.into_iter());
+            #[cfg(feature = "verif")]
+            crate::verif::log_draw(crate::verif::Draw::Categorical {
+                count: self.counts[col_idx],
+                weights: self.states.column(col_idx).iter().map(|c| c.norm_sqr()).collect(),
+                result: state_counts[verif_start..].to_vec()
+            });
         }
 
         let mask = !cbits.iter().fold(0u64, |m, b| m | (1u64 << b));
@@ -270,6 +278,8 @@ impl crate::qustate::QuState for VectorState
             // panic, so cap w0.
             let distribution = rand_distr::Binomial::new(c as u64, w0.min(1.0)).unwrap();
             let n0 = rng.sample(distribution) as usize;
+            #[cfg(feature = "verif")]
+            crate::verif::log_draw(crate::verif::Draw::Binomial { count: c, p: w0.min(1.0), n0: n0 });
             n0s.push(n0);
             new_nr_states += if n0 == 0 || n0 == c { 1 } else { 2 };
         }
@@ -378,6 +388,8 @@ impl crate::qustate::QuState for VectorState
             // Compute how many times we measure 0
             let distribution = rand_distr::Binomial::new(c as u64, w0.min(1.0)).unwrap();
             let n0 = rng.sample(distribution) as usize;
+            #[cfg(feature = "verif")]
+            crate::verif::log_draw(crate::verif::Draw::Binomial { count: c, p: w0.min(1.0), n0: n0 });
 
             // Store the result.
             res.slice_mut(s![res_start..res_start+n0]).map_inplace(
